@@ -818,6 +818,19 @@ func natFormatInt(p *Path, g *G, fr *Frame, fv *FuncV, args []Value) (Value, int
 
 func (p *Path) parseIntResult(s StrV, bits int) (Value, Value) {
 	if s.kind == strDec {
+		if bits > 0 && bits < 64 {
+			// strconv.ParseInt with a narrower bitSize: out-of-range values are clamped and
+			// reported with a range error
+			max := p.tc.Const(64, uint64(int64(1)<<uint(bits-1)-1))
+			min := p.tc.Const(64, uint64(-(int64(1) << uint(bits-1))))
+			if p.branch(p.tc.Cmp("bvsle", s.dec, max)) {
+				if p.branch(p.tc.Cmp("bvsle", min, s.dec)) {
+					return s.dec, IfaceV{}
+				}
+				return min, p.newError(conc("strconv.ParseInt: value out of range"))
+			}
+			return max, p.newError(conc("strconv.ParseInt: value out of range"))
+		}
 		return s.dec, IfaceV{}
 	}
 	str := p.concStr(s, "ParseInt input")
